@@ -1,13 +1,592 @@
-//! C09 — stub (not built yet; not registered in MANIFEST.json).
-use super::*;
+//! C09 — formula text survives the tokenizer; translation shifts only relative parts.
+//!
+//! Paths through the library (the only public ways through parse/render):
+//!   * `same`      Cell::set_formula(f); Cell::set_coordinate(own coordinate)      -> identity
+//!   * `far-edit`  Worksheet::{insert_new_row, insert_new_column_by_index, remove_row,
+//!                 remove_column_by_index} strictly beyond every reference          -> identity
+//!   * `translate` Cell::set_coordinate(other coordinate)  -> dc/dr added to non-$ parts
+//! Oracle: the reference-lexed output equals the token list computed on the generator's AST.
+use super::Prop;
+use crate::engine::*;
+use crate::gen::formula::*;
+use proptest::prelude::*;
+use serde::{Deserialize, Serialize};
+use std::collections::BTreeSet;
 
 pub fn prop() -> Prop {
     Prop {
         id: "C09",
-        describe: |_| {},
-        subs: no_subs,
-        extra: no_extra,
-        replay_extra: no_replay_extra,
-        watchdog_s: (900, 7200),
+        describe,
+        subs,
+        extra: super::no_extra,
+        replay_extra: super::no_replay_extra,
+        watchdog_s: (900, 14400),
     }
+}
+
+fn describe(ctx: &Ctx) {
+    ctx.rule("formulas are generated as an AST (depth <= 6) over every lexical class (numbers incl. scientific, strings incl. doubled quotes, booleans, error literals, relative/absolute/mixed cells, ranges, whole rows/columns, bare/quoted/external sheet qualifiers, names, functions, unary/postfix/infix operators, unions, intersections, array constants, structured references) and rendered with optional decorative blanks; non-trivial = at least 3 distinct token classes including one of {string with doubled quote, quoted sheet, $-mixed reference, range, array constant, bracket group, percent, scientific number, intersection}; distinct by (sub-check, case JSON)");
+    ctx.assume("only well-formed formulas as stored in files: upper-case references, space as the only blank, unions parenthesised, intersection operands reference-valued");
+    ctx.assume("a reference that leaves the grid may be rendered `#REF!` with or without its sheet qualifier (the statement does not say which)");
+    ctx.assume("termination is decided by hook H2 (iteration fuel 8*len+64 in parse_to_tokens); the fuel panic is a termination violation");
+}
+
+pub const HOST: &str = "Host";
+
+#[derive(Debug, Clone, Copy, PartialEq, Eq, Serialize, Deserialize)]
+pub enum Path {
+    Same,
+    FarEdit,
+    Translate,
+}
+
+#[derive(Debug, Clone, Serialize, Deserialize)]
+pub struct Case {
+    pub path: Path,
+    /// true: clean stratum (steered around open findings); false: dirty stratum
+    pub clean: bool,
+    pub expr: Expr,
+    pub blanks: Vec<u8>,
+    pub lead: u8,
+    pub trail: u8,
+    /// (col,row) of the formula cell
+    pub at: (u32, u32),
+    /// translate: the new coordinate
+    pub to: (u32, u32),
+    /// far-edit: 0 insert rows, 1 insert columns, 2 remove rows, 3 remove columns
+    pub edit_kind: u8,
+    pub gap: u16,
+    pub n: u16,
+}
+
+// ---------------------------------------------------------------------------------------
+// generators
+
+fn at_axis(boundary: Vec<u32>, max: u32) -> BoxedStrategy<u32> {
+    prop_oneof![4 => 1u32..=12, 3 => prop::sample::select(boundary), 1 => 1u32..=max].boxed()
+}
+
+/// (from, to) on one axis
+fn move_axis(max: u32) -> BoxedStrategy<(u32, u32)> {
+    let b = vec![1u32, 2, 3, max - 2, max - 1, max];
+    prop_oneof![
+        2 => at_axis(b.clone(), max).prop_map(|a| (a, a)),
+        5 => (at_axis(b.clone(), max), -4i64..=4).prop_map(move |(a, d)| (a, (a as i64 + d).clamp(1, max as i64) as u32)),
+        2 => (at_axis(b.clone(), max), -60i64..=60).prop_map(move |(a, d)| (a, (a as i64 + d).clamp(1, max as i64) as u32)),
+        2 => (at_axis(b.clone(), max), at_axis(b, max)),
+    ]
+    .boxed()
+}
+
+fn case_strategy(path: Option<Path>, clean: bool) -> BoxedStrategy<Case> {
+    let path_s = match path {
+        Some(p) => Just(p).boxed(),
+        None => prop::sample::select(vec![Path::Same, Path::FarEdit, Path::Translate]).boxed(),
+    };
+    (
+        path_s,
+        expr(),
+        blank_plan(),
+        prop_oneof![8 => Just(0u8), 1 => Just(1u8), 1 => Just(2u8)],
+        prop_oneof![8 => Just(0u8), 1 => Just(1u8), 1 => Just(2u8)],
+        move_axis(MAX_COL),
+        move_axis(MAX_ROW),
+        0u8..4,
+        prop_oneof![3 => Just(0u16), 2 => 0u16..5, 1 => any::<u16>()],
+        prop_oneof![3 => 1u16..4, 1 => 1u16..200],
+    )
+        .prop_map(move |(path, expr, blanks, lead, trail, (c0, c1), (r0, r1), edit_kind, gap, n)| {
+            let (at, to) = match path {
+                Path::Translate => ((c0, r0), (c1, r1)),
+                Path::Same => ((c0, r0), (c0, r0)),
+                Path::FarEdit => ((1 + c0 % 6, 1 + r0 % 6), (1 + c0 % 6, 1 + r0 % 6)),
+            };
+            Case { path, clean, expr, blanks, lead, trail, at, to, edit_kind, gap, n }
+        })
+        .boxed()
+}
+
+fn same_cases(_t: Tier) -> BoxedStrategy<Case> {
+    case_strategy(Some(Path::Same), true)
+}
+fn far_cases(_t: Tier) -> BoxedStrategy<Case> {
+    case_strategy(Some(Path::FarEdit), true)
+}
+fn translate_cases(_t: Tier) -> BoxedStrategy<Case> {
+    case_strategy(Some(Path::Translate), true)
+}
+fn dirty_cases(_t: Tier) -> BoxedStrategy<Case> {
+    case_strategy(None, false)
+}
+
+// ---------------------------------------------------------------------------------------
+// steering around open findings (clean strata)
+
+/// Rewrites the generated AST so that it avoids the lexical forms with an OPEN known finding;
+/// returns the rewritten AST and one finding key per replaced node.
+pub fn steer(e: &Expr, path: Path, dc: i64, dr: i64) -> (Expr, Vec<String>) {
+    let mut excluded: Vec<String> = Vec::new();
+    let out = e.map(&mut |x| match x {
+        Expr::Array(rows) => {
+            excluded.push("array/altered".into());
+            Expr::Paren(Box::new(rows[0][0].clone()))
+        }
+        Expr::At(inner) => {
+            excluded.push("at/dropped".into());
+            *inner
+        }
+        Expr::Ref(r) if path == Path::Translate => match &r.area {
+            Area::Rows { r1, r2, a1, a2 } if dr != 0 && !(*a1 && *a2) => {
+                excluded.push("rows/not-shifted".into());
+                Expr::Ref(RefNode { qual: r.qual.clone(), area: Area::Rows { r1: *r1, a1: true, r2: *r2, a2: true } })
+            }
+            Area::Cols { c1, c2, a1, a2 } if dc != 0 && !(*a1 && *a2) => {
+                excluded.push("cols/not-shifted".into());
+                Expr::Ref(RefNode { qual: r.qual.clone(), area: Area::Cols { c1: *c1, a1: true, c2: *c2, a2: true } })
+            }
+            _ => Expr::Ref(r),
+        },
+        o => o,
+    });
+    (out, excluded)
+}
+
+// ---------------------------------------------------------------------------------------
+// running one formula through one path
+
+#[derive(Debug, Clone)]
+pub struct Params {
+    pub path: Path,
+    pub at: (u32, u32),
+    pub to: (u32, u32),
+    pub edit_kind: u8,
+    pub gap: u16,
+    pub n: u16,
+}
+
+impl Params {
+    pub fn delta(&self) -> (i64, i64) {
+        (self.to.0 as i64 - self.at.0 as i64, self.to.1 as i64 - self.at.1 as i64)
+    }
+}
+
+/// The far edit for this formula: strictly beyond every reference that belongs to the host
+/// sheet and beyond the formula cell; None if no axis has room.
+pub fn far_edit(e: &Expr, p: &Params) -> Option<Edit> {
+    let mut max_row = p.at.1;
+    let mut max_col = p.at.0;
+    for r in e.refs() {
+        let own = match &r.qual {
+            None => true,
+            Some(q) => !q.is_external() && q.sheet == HOST,
+        };
+        if own {
+            max_row = max_row.max(r.area.max_row().unwrap_or(0));
+            max_col = max_col.max(r.area.max_col().unwrap_or(0));
+        }
+    }
+    let n = p.n.max(1) as u32;
+    let row_at = max_row as u64 + 1 + p.gap as u64;
+    let col_at = max_col as u64 + 1 + p.gap as u64;
+    let row_ok = row_at + n as u64 <= MAX_ROW as u64;
+    let col_ok = col_at + n as u64 <= MAX_COL as u64;
+    // fall back to the tightest position when the gap does not fit
+    let row_at2 = if row_ok { row_at } else { max_row as u64 + 1 };
+    let col_at2 = if col_ok { col_at } else { max_col as u64 + 1 };
+    let row_fit = row_at2 + n as u64 <= MAX_ROW as u64 + 1 && row_at2 <= MAX_ROW as u64;
+    let col_fit = col_at2 + n as u64 <= MAX_COL as u64 + 1 && col_at2 <= MAX_COL as u64;
+    let want_rows = p.edit_kind % 2 == 0;
+    let insert = p.edit_kind < 2;
+    let rows = if want_rows { row_fit || !col_fit } else { !col_fit && row_fit };
+    if rows && !row_fit {
+        return None;
+    }
+    Some(match (rows, insert) {
+        (true, true) => Edit::InsertRows { at: row_at2 as u32, n },
+        (true, false) => Edit::RemoveRows { at: row_at2 as u32, n },
+        (false, true) => Edit::InsertCols { at: col_at2 as u32, n },
+        (false, false) => Edit::RemoveCols { at: col_at2 as u32, n },
+    })
+}
+
+fn run_library(e: &Expr, text: &str, p: &Params) -> Result<Result<String, String>, PanicInfo> {
+    match p.path {
+        Path::Same | Path::Translate => guard(|| {
+            let mut cell = umya_spreadsheet::Cell::default();
+            cell.set_coordinate((p.at.0, p.at.1));
+            cell.set_formula(text.to_string());
+            cell.set_coordinate((p.to.0, p.to.1));
+            Ok(cell.get_formula().to_string())
+        }),
+        Path::FarEdit => {
+            let Some(edit) = far_edit(e, p) else { return Ok(Err("no room for a far edit".into())) };
+            guard(|| {
+                let mut book = umya_spreadsheet::new_file();
+                book.new_sheet(HOST).unwrap();
+                let ws = book.get_sheet_by_name_mut(HOST).unwrap();
+                ws.get_cell_mut((p.at.0, p.at.1)).set_formula(text.to_string());
+                match edit {
+                    Edit::InsertRows { at, n } => ws.insert_new_row(&at, &n),
+                    Edit::InsertCols { at, n } => ws.insert_new_column_by_index(&at, &n),
+                    Edit::RemoveRows { at, n } => ws.remove_row(&at, &n),
+                    Edit::RemoveCols { at, n } => ws.remove_column_by_index(&at, &n),
+                }
+                let cells: Vec<String> = ws
+                    .get_cell_collection()
+                    .into_iter()
+                    .filter(|c| c.is_formula())
+                    .map(|c| c.get_formula().to_string())
+                    .collect();
+                if cells.len() == 1 {
+                    Ok(cells[0].clone())
+                } else {
+                    Err(format!("{} formula cells after the edit", cells.len()))
+                }
+            })
+        }
+    }
+}
+
+#[derive(Debug, Clone)]
+pub enum Outcome {
+    Pass,
+    /// generator / lexer inconsistency: a harness bug, never a finding
+    Harness(String),
+    NotApplicable(String),
+    Fail { mode: String, tok_class: String, detail: String },
+}
+
+fn blanks_str(n: u8) -> String {
+    " ".repeat(n.min(3) as usize)
+}
+
+/// Render the formula and cross-check the reference lexer against the generator.
+pub fn prepare(e: &Expr, blanks: &[u8], lead: u8, trail: u8) -> Result<(String, Vec<Tok>), Outcome> {
+    let input = tokens(e, &identity_map);
+    let text = format!("{}{}{}", blanks_str(lead), render(e, blanks), blanks_str(trail));
+    match lex(&text) {
+        Ok(l) => {
+            if let Some(i) = first_mismatch(&input, &l) {
+                return Err(Outcome::Harness(format!("reference lexer disagrees with the generator at token {} of {:?}: {}", i, text, toks_text(&l))));
+            }
+        }
+        Err(err) => return Err(Outcome::Harness(format!("reference lexer rejects generated {:?}: {}", text, err))),
+    }
+    Ok((text, input))
+}
+
+/// Judge what the library made of `text`.
+pub fn judge_output(text: &str, input: &[Tok], expected: &[Tok], lib: Result<Result<String, String>, PanicInfo>) -> Outcome {
+    let out = match lib {
+        Err(pi) => {
+            let mode = if pi.msg.contains("umya_verif: tokenizer made no progress") { "no-termination".to_string() } else { format!("panic:{}", pi.site()) };
+            return Outcome::Fail { mode, tok_class: "formula".into(), detail: format!("{:?} -> {}", text, pi.short()) };
+        }
+        Ok(Err(why)) => return Outcome::NotApplicable(why),
+        Ok(Ok(s)) => s,
+    };
+    let actual = match lex(&out) {
+        Ok(a) => a,
+        Err(err) => {
+            return Outcome::Fail { mode: "unlexable-output".into(), tok_class: "formula".into(), detail: format!("{:?} -> {:?}: {}", text, out, err) };
+        }
+    };
+    match first_mismatch(expected, &actual) {
+        None => Outcome::Pass,
+        Some(i) => {
+            let detail = format!(
+                "{:?} -> {:?}; token {}: expected {}, got {}",
+                text,
+                out,
+                i,
+                expected.get(i).map(|t| format!("{:?} {:?}{}", t.kind, t.text, if t.alts.is_empty() { String::new() } else { format!(" (or {:?})", t.alts) })).unwrap_or("end".into()),
+                actual.get(i).map(|t| format!("{:?} {:?}", t.kind, t.text)).unwrap_or("end".into())
+            );
+            let (mode, class) = diff_mode(input, expected, &actual, i);
+            Outcome::Fail { mode, tok_class: class, detail }
+        }
+    }
+}
+
+/// One formula through one path, judged.
+pub fn attempt(e: &Expr, blanks: &[u8], lead: u8, trail: u8, p: &Params) -> Outcome {
+    let (text, input) = match prepare(e, blanks, lead, trail) {
+        Ok(x) => x,
+        Err(o) => return o,
+    };
+    let (dc, dr) = p.delta();
+    let tr = move |r: &RefNode| vec![translate_area(&r.area, dc, dr)];
+    let expected = match p.path {
+        Path::Translate => tokens(e, &tr),
+        _ => input.clone(),
+    };
+    let lib = run_library(e, &text, p);
+    judge_output(&text, &input, &expected, lib)
+}
+
+/// Failure mode and token class at the first mismatch.
+pub fn diff_mode(input: &[Tok], expected: &[Tok], actual: &[Tok], i: usize) -> (String, String) {
+    if i >= expected.len() {
+        return ("extra-tokens".into(), expected.last().map(|t| t.class.clone()).unwrap_or("formula".into()));
+    }
+    let e = &expected[i];
+    let class = e.class.clone();
+    let Some(a) = actual.get(i) else { return ("truncated".into(), class) };
+    let is_ref_err = |t: &Tok| t.kind == Kind::Err && t.text.ends_with("#REF!");
+    let mode = if input[i].kind == Kind::Ref && !input[i].accepts(&expected[i]) && input[i].text == a.text {
+        "not-shifted"
+    } else if input[i].kind == Kind::Ref && e.kind == Kind::Err && a.kind == Kind::Ref {
+        "no-ref-error"
+    } else if e.kind == Kind::Ref && is_ref_err(a) {
+        "spurious-ref-error"
+    } else if e.kind == Kind::Ref && a.kind == Kind::Ref {
+        let (eq, ea) = split_qualifier(&e.text);
+        let (aq, aa) = split_qualifier(&a.text);
+        if eq != aq && ea == aa {
+            "qualifier-altered"
+        } else {
+            "wrong-shift"
+        }
+    } else if expected.get(i + 1).map_or(false, |n| n.accepts(a)) {
+        "dropped"
+    } else {
+        "altered"
+    };
+    (mode.into(), class)
+}
+
+// ---------------------------------------------------------------------------------------
+// classifier: finding key = <minimal lexical class that still fails>/<failure mode>
+
+fn fails(o: &Outcome) -> Option<(String, String, String)> {
+    match o {
+        Outcome::Fail { mode, tok_class, detail } => Some((mode.clone(), tok_class.clone(), detail.clone())),
+        _ => None,
+    }
+}
+
+/// Minimal failing reference features: drop qualifier, make relative, reduce to one cell, as
+/// long as the failure persists.  `run_ref(original, strip_qualifier, area)` runs the single
+/// reference `area` with the original's qualifier, or - if `strip_qualifier` - the
+/// semantically equivalent unqualified reference (C08: hosted on the target sheet).
+fn minimise_ref(r: &RefNode, run_ref: &dyn Fn(&RefNode, bool, &Area) -> Outcome) -> (String, String) {
+    let mut area = r.area.clone();
+    let mut strip = false;
+    let mut mode = fails(&run_ref(r, strip, &area)).map(|f| f.0).unwrap_or("altered".into());
+    let mut keep_qual = r.qual.is_some();
+    if keep_qual {
+        if let Some(f) = fails(&run_ref(r, true, &area)) {
+            strip = true;
+            mode = f.0;
+            keep_qual = false;
+        }
+    }
+    let mut keep_abs = area.abs_kind() != "rel";
+    if keep_abs {
+        let v = area.relative();
+        if let Some(f) = fails(&run_ref(r, strip, &v)) {
+            area = v;
+            mode = f.0;
+            keep_abs = false;
+        }
+    }
+    let mut keep_kind = area.kind() != "cell";
+    if keep_kind {
+        for v in [area.first_cell(), area.last_cell()] {
+            if let Some(f) = fails(&run_ref(r, strip, &v)) {
+                area = v;
+                mode = f.0;
+                keep_kind = false;
+                break;
+            }
+        }
+    }
+    let mut label = if keep_kind { area.kind().to_string() } else { "ref".to_string() };
+    if keep_abs {
+        label.push('.');
+        label.push_str(area.abs_kind());
+    }
+    if keep_qual {
+        label.push('@');
+        label.push_str(r.qual.as_ref().unwrap().class());
+    }
+    (label, mode)
+}
+
+/// Generic classifier shared with C08: `run(expr, blanks, lead, trail)`.
+pub fn classify(
+    e: &Expr,
+    blanks: &[u8],
+    lead: u8,
+    trail: u8,
+    first: (String, String, String),
+    run: &dyn Fn(&Expr, &[u8], u8, u8) -> Outcome,
+    run_ref: &dyn Fn(&RefNode, bool, &Area) -> Outcome,
+) -> (String, String) {
+    let (mode0, tok_class0, detail0) = first;
+    // 0. blanks
+    let (mut b, mut l, mut t) = (blanks.to_vec(), lead, trail);
+    if t > 0 {
+        if fails(&run(e, &b, l, 0)).is_none() {
+            return (format!("trailing-blank/{}", mode0), detail0);
+        }
+        t = 0;
+    }
+    if l > 0 {
+        if fails(&run(e, &b, 0, t)).is_none() {
+            return (format!("leading-blank/{}", mode0), detail0);
+        }
+        l = 0;
+    }
+    if b.iter().any(|x| *x > 0) {
+        if fails(&run(e, &[], l, t)).is_none() {
+            return (format!("decorative-blank/{}", mode0), detail0);
+        }
+        b.clear();
+    }
+    let _ = (l, t, b);
+    // 1. smallest failing subtree
+    let mut subs: Vec<(usize, usize, &Expr)> = e.subtrees().into_iter().enumerate().map(|(i, s)| (s.node_count(), i, s)).collect();
+    subs.sort_by_key(|x| (x.0, x.1));
+    for (_, _, s) in subs {
+        if matches!(s, Expr::Missing) {
+            continue;
+        }
+        if let Some((mode, _tc, detail)) = fails(&run(s, &[], 0, 0)) {
+            let (class, mode) = match s {
+                Expr::Ref(r) => minimise_ref(r, run_ref),
+                Expr::Name { qual: Some(_), name } => {
+                    let v = Expr::Name { qual: None, name: name.clone() };
+                    match fails(&run(&v, &[], 0, 0)) {
+                        Some(f) => (v.node_class(), f.0),
+                        None => (s.node_class(), mode),
+                    }
+                }
+                _ => (s.node_class(), mode),
+            };
+            return (format!("{}/{}", class, mode), detail);
+        }
+    }
+    // 2. context dependent: class of the first mismatching token
+    (format!("{}-in-context/{}", tok_class0, mode0), detail0)
+}
+
+pub fn coarse_classes(e: &Expr) -> BTreeSet<String> {
+    let mut out = BTreeSet::new();
+    for c in e.classes() {
+        // reference classes are split into their dimensions to keep the table readable
+        if let Some((area_abs, q)) = c.split_once('@') {
+            out.insert(format!("qual:{}", q));
+            if let Some((a, b)) = area_abs.split_once('.') {
+                if ["cell", "range", "rows", "cols"].contains(&a) {
+                    out.insert(format!("area:{}", a));
+                    out.insert(format!("abs:{}", b));
+                    continue;
+                }
+            }
+            out.insert(area_abs.to_string());
+        } else if let Some((a, b)) = c.split_once('.') {
+            if ["cell", "range", "rows", "cols"].contains(&a) {
+                out.insert(format!("area:{}", a));
+                out.insert(format!("abs:{}", b));
+            } else {
+                out.insert(c.clone());
+            }
+        } else {
+            out.insert(c.clone());
+        }
+    }
+    out
+}
+
+pub fn is_nontrivial(e: &Expr) -> bool {
+    let cl = e.classes();
+    let special = cl.iter().any(|c| {
+        c == "str-dquote"
+            || c.contains("@quoted-sheet")
+            || c.contains("@apos-sheet")
+            || c.contains(".mixed")
+            || c.starts_with("range")
+            || c == "array"
+            || c.starts_with("structured")
+            || c.contains("@ext")
+            || c == "percent"
+            || c.starts_with("num-sci")
+            || c == "intersect"
+    });
+    special && cl.len() >= 3
+}
+
+fn check(c: &Case, obs: &mut Obs) -> Verdict {
+    let p = Params { path: c.path, at: c.at, to: c.to, edit_kind: c.edit_kind, gap: c.gap, n: c.n };
+    let (dc, dr) = p.delta();
+    let (e, excluded) = if c.clean { steer(&c.expr, c.path, dc, dr) } else { (c.expr.clone(), vec![]) };
+    for x in excluded {
+        obs.excluded(x);
+    }
+    for cl in coarse_classes(&e) {
+        obs.class(cl);
+    }
+    if c.lead > 0 {
+        obs.class("blank:leading");
+    }
+    if c.trail > 0 {
+        obs.class("blank:trailing");
+    }
+    if c.blanks.iter().any(|b| *b > 0) {
+        obs.class("blank:decorative");
+    }
+    if c.path == Path::Translate {
+        let n_dead = e.refs().iter().filter(|r| translate_area(&r.area, dc, dr).is_none()).count();
+        if n_dead > 0 {
+            obs.class("translate:some-ref-leaves-grid");
+        }
+        if dc == 0 && dr == 0 {
+            obs.class("translate:zero");
+        }
+    }
+    obs.nontrivial(is_nontrivial(&e));
+    match attempt(&e, &c.blanks, c.lead, c.trail, &p) {
+        Outcome::Pass => Verdict::Pass,
+        Outcome::NotApplicable(why) => Verdict::Discard(why),
+        Outcome::Harness(d) => Verdict::fail("harness/generator-lexer-disagree", d),
+        Outcome::Fail { mode, tok_class, detail } => {
+            let run = |x: &Expr, b: &[u8], l: u8, t: u8| attempt(x, b, l, t, &p);
+            let run_ref = |r: &RefNode, strip: bool, a: &Area| {
+                let q = if strip { None } else { r.qual.clone() };
+                attempt(&Expr::Ref(RefNode { qual: q, area: a.clone() }), &[], 0, 0, &p)
+            };
+            let (key, detail) = classify(&e, &c.blanks, c.lead, c.trail, (mode, tok_class, detail), &run, &run_ref);
+            Verdict::fail(key, detail)
+        }
+    }
+}
+
+/// Entry point of the cargo-fuzz target: run one case, return (key, detail) for a finding that
+/// is not an open known finding (harness inconsistencies included).
+pub fn fuzz_one(c: &Case) -> Option<(String, String)> {
+    use std::sync::OnceLock;
+    static KNOWN: OnceLock<Vec<KnownFinding>> = OnceLock::new();
+    let known = KNOWN.get_or_init(|| {
+        install_panic_hook();
+        load_known().into_iter().filter(|k| k.property == "C09" && k.status == "open").collect()
+    });
+    let mut obs = Obs::default();
+    match check(c, &mut obs) {
+        Verdict::Fail { key, detail } if !known.iter().any(|k| k.key == key) => Some((key, detail)),
+        _ => None,
+    }
+}
+
+pub fn case_json(c: &Case) -> String {
+    serde_json::to_string(&serde_json::json!({"property": "C09", "sub": "dirty", "case": c})).unwrap_or_default()
+}
+
+fn subs() -> Vec<Box<dyn DynSub>> {
+    vec![
+        Box::new(Sub { name: "same", strategy: same_cases, cases: (3500, 40_000), check, max_shrink_iters: 3000 }),
+        Box::new(Sub { name: "far-edit", strategy: far_cases, cases: (1400, 12_000), check, max_shrink_iters: 3000 }),
+        Box::new(Sub { name: "translate", strategy: translate_cases, cases: (3500, 40_000), check, max_shrink_iters: 3000 }),
+        Box::new(Sub { name: "dirty", strategy: dirty_cases, cases: (500, 4_000), check, max_shrink_iters: 3000 }),
+    ]
 }
